@@ -343,6 +343,31 @@ pub fn check_hints<E: Clone + std::fmt::Debug>(t: &Trace<E>, exact: bool, what: 
     Ok(())
 }
 
+/// C12 (first half), after an error: a body that, polled again after its error, comes to a clean
+/// end (`None`) has by then delivered nothing more (C20), so every hint sampled between the error
+/// and that end must have a lower bound of 0 - it "will still deliver" nothing "if it ends cleanly".
+/// Says nothing when the polls after the error yield errors only.
+pub fn check_hints_after_error<E: Clone + std::fmt::Debug>(t: &Trace<E>, what: &str) -> Check {
+    if t.ended_err().is_none() {
+        return Ok(());
+    }
+    let Some(k) = t.extra.iter().position(|s| matches!(s.ev, Ev::End)) else { return Ok(()) };
+    if t.extra[..k].iter().any(|s| !matches!(s.ev, Ev::Pending | Ev::Data(0))) {
+        return Ok(());
+    }
+    for (i, s) in t.extra[..=k].iter().enumerate() {
+        ensure!(
+            s.lower == 0,
+            format!("hint-after-error:{what}"),
+            "poll {} after the error: size_hint lower {} although the body then ends cleanly without delivering anything more; trace: {}",
+            i + 1,
+            s.lower,
+            t.summary()
+        );
+    }
+    Ok(())
+}
+
 impl<E: Clone + std::fmt::Debug> Trace<E> {
     pub fn delivered_before_terminal(&self) -> u64 {
         self.steps
